@@ -1,7 +1,141 @@
 import ComposeVerif.Ops.Common
-/-! line-protocol ops for C19 (filled in by the property's owner) -/
+import ComposeVerif.Model.Fanout
+/-! line-protocol ops for C19: `fanout.replay` (trace inclusion + parked-set agreement for the service fan-out) -/
+open Lean
 namespace CV.Ops.C19
+open CV.Fanout
 
-def handlers : List (String × Handler) := []
+def getIntList (j : Json) (k : String) : List Int :=
+  match j.getObjVal? k with
+  | .ok (.arr a) => a.toList.map fun x => match x.getInt? with | .ok i => i | .error _ => -1
+  | _ => []
+
+/-- `res[v] ≥ 0` = `fn` returns that value for service `v`; negative = `fn` returns an error -/
+def cfgOf (res : List Int) : Cfg :=
+  { svcs := List.range res.length,
+    fn := fun v => match res[v]? with
+      | some i => if i < 0 then none else some i.toNat
+      | none => none }
+
+def parseLabel (s : String) : Option Label :=
+  match s.splitOn ":" with
+  | [a] =>
+    match a with
+    | "mRead" => some .mRead | "mSpawnC" => some .mSpawnC | "mWait" => some .mWait | "mReturn" => some .mReturn
+    | "cRecv" => some .cRecv | "cCtxDone" => some .cCtxDone | "cStore" => some .cStore
+    | "cReturn" => some .cReturn | "cExit" => some .cExit
+    | _ => none
+  | [a, b] =>
+    match b.toNat? with
+    | none => none
+    | some v =>
+      match a with
+      | "mSpawn" => some (.mSpawn v) | "wBegin" => some (.wBegin v) | "wReturn" => some (.wReturn v)
+      | "wSend" => some (.wSend v) | "wExit" => some (.wExit v) | "wFail" => some (.wFail v)
+      | _ => none
+  | _ => none
+
+def labelStr : Label → String
+  | .mRead => "mRead" | .mSpawnC => "mSpawnC" | .mSpawn v => s!"mSpawn:{v}" | .mWait => "mWait" | .mReturn => "mReturn"
+  | .wBegin v => s!"wBegin:{v}" | .wReturn v => s!"wReturn:{v}" | .wSend v => s!"wSend:{v}" | .wExit v => s!"wExit:{v}"
+  | .wFail v => s!"wFail:{v}"
+  | .cRecv => "cRecv" | .cCtxDone => "cCtxDone" | .cStore => "cStore" | .cReturn => "cReturn" | .cExit => "cExit"
+
+/-- the yield at which each goroutine of the real code is parked in this state (what the scheduler observes) -/
+def pcs (cfg : Cfg) (s : St) : String :=
+  let m := match s.m with
+    | .read => "M=read" | .spawnC => "M=spawnC" | .spawning [] => "M=wait" | .spawning _ => "M=spawning"
+    | .waiting => "M=inWait" | .returned => "M=returned"
+  let c := match s.c with
+    | .notStarted => "C=none" | .sel => "C=select" | .got v _ => s!"C=recv:{v}" | .done => "C=ctxDone" | .fin => "C=exit" | .gone => "C=gone"
+  let ws := cfg.svcs.map fun v =>
+    match s.w v with
+    | .idle => s!"W{v}=idle" | .start => s!"W{v}=begin" | .running => s!"W{v}=fn" | .returned => s!"W{v}=return"
+    | .sent => s!"W{v}=exit" | .exited => s!"W{v}=gone" | .failed => s!"W{v}=gone"
+  " ".intercalate (m :: c :: ws)
+
+def servicesJson (cfg : Cfg) (f : V → Option Nat) : Json :=
+  Json.arr (cfg.svcs.filterMap fun v => (f v).map fun r => Json.arr #[Json.num (v : Nat), Json.num (r : Nat)]).toArray
+
+def finalJson (cfg : Cfg) (s : St) : Json :=
+  Json.mkObj [
+    ("terminal", Json.bool (decide (s.m = .returned))),
+    ("services", match s.services with | some f => servicesJson cfg f | none => Json.null),
+    ("err", match s.firstErr with | some v => Json.num (v : Nat) | none => Json.null),
+    ("enabled", Json.arr ((enabled cfg s).map fun l => Json.str (labelStr l)).toArray)]
+
+/-- replay a label sequence through `step?`; stop at the first label the model refuses -/
+def replayLoop (cfg : Cfg) : St → List String → Nat → List String → List (List String) → (Nat × List String × List (List String) × St × Option String)
+  | s, [], k, accP, accE => (k, accP.reverse, accE.reverse, s, none)
+  | s, x :: xs, k, accP, accE =>
+    match parseLabel x with
+    | none => (k, accP.reverse, accE.reverse, s, some ("unparsable label " ++ x))
+    | some l =>
+      match step? cfg s l with
+      | none => (k, accP.reverse, accE.reverse, s, some ("label " ++ x ++ " is not enabled in the model at " ++ pcs cfg s))
+      | some s' => replayLoop cfg s' xs (k + 1) (pcs cfg s' :: accP) (((enabled cfg s').map labelStr) :: accE)
+
+def fanoutReplay : Handler := fun args =>
+  let cfg := cfgOf (getIntList args "res")
+  let trace := getStrList args "trace"
+  let s0 := if getBool args "legacy" then initLegacy cfg else init cfg
+  let (k, ps, es, s, why) := replayLoop cfg s0 trace 0 [] []
+  Json.mkObj [
+    ("accepted", Json.num (k : Nat)),
+    ("refused", match why with | some w => Json.str w | none => Json.null),
+    ("pcs", Json.arr (ps.map Json.str).toArray),
+    ("enabled", Json.arr (es.map fun e => Json.arr (e.map Json.str).toArray).toArray),
+    ("final", finalJson cfg s)]
+
+/-- all maximal label sequences of the model from `s` (depth-first), at most `limit` of them; `fuel` bounds the depth
+    (the termination measure `mu` is a sufficient fuel) -/
+def enumRuns (cfg : Cfg) : Nat → St → List String → (Nat × List (List String)) → (Nat × List (List String))
+  | 0, _, pre, (lim, acc) => (lim - 1, pre.reverse :: acc)
+  | fuel + 1, s, pre, (lim, acc) =>
+    if lim = 0 then (lim, acc) else
+    match enabled cfg s with
+    | [] => (lim - 1, pre.reverse :: acc)
+    | ls => ls.foldl (fun st l =>
+        match step? cfg s l with
+        | some s' => enumRuns cfg fuel s' (labelStr l :: pre) st
+        | none => st) (lim, acc)
+
+def applyPrefix (cfg : Cfg) (s : St) : List String → St
+  | [] => s
+  | x :: xs => match (parseLabel x).bind (step? cfg s) with
+    | some s' => applyPrefix cfg s' xs
+    | none => s
+
+/-- enumerate the maximal runs that extend `prefix` (the part of a run the scheduler cannot control) -/
+def fanoutEnum : Handler := fun args =>
+  let cfg := cfgOf (getIntList args "res")
+  let pre := getStrList args "prefix"
+  let s0 := applyPrefix cfg (init cfg) pre
+  let (_, runs) := enumRuns cfg (mu cfg s0 + 1) s0 [] (getNat args "limit", [])
+  Json.mkObj [("runs", Json.arr (runs.reverse.map fun r => Json.arr ((pre ++ r).map Json.str).toArray).toArray)]
+
+/-- one pseudo-random maximal run (linear congruential choice among the enabled labels) -/
+def sampleRun (cfg : Cfg) : Nat → St → Nat → List String → List String
+  | 0, _, _, acc => acc.reverse
+  | fuel + 1, s, seed, acc =>
+    match enabled cfg s with
+    | [] => acc.reverse
+    | ls =>
+      let seed' := (seed * 6364136223846793005 + 1442695040888963407) % 18446744073709551616
+      let l := ls.getD ((seed' / 4294967296) % ls.length) .mRead
+      match step? cfg s l with
+      | some s' => sampleRun cfg fuel s' seed' (labelStr l :: acc)
+      | none => acc.reverse
+
+def fanoutSample : Handler := fun args =>
+  let cfg := cfgOf (getIntList args "res")
+  let pre := getStrList args "prefix"
+  let s0 := applyPrefix cfg (init cfg) pre
+  let seed := getNat args "seed"
+  let k := getNat args "count"
+  let runs := (List.range k).map fun i => pre ++ sampleRun cfg (mu cfg s0 + 1) s0 (seed * 1000003 + i * 7919 + 1) []
+  Json.mkObj [("runs", Json.arr (runs.map fun r => Json.arr (r.map Json.str).toArray).toArray)]
+
+def handlers : List (String × Handler) := [("fanout.replay", fanoutReplay), ("fanout.enum", fanoutEnum), ("fanout.sample", fanoutSample)]
 
 end CV.Ops.C19
